@@ -314,10 +314,36 @@ def ev_const(case, rec):
     rec.sample({'published': {k: cfg.PUBLISHED_TRANS[k] for k in ['gda94_to_gda2020']}})
 
 
+# --- two threads transforming DIFFERENT grid points (with different covariances, in both directions) at the same time ------
+from gpmc import threads as _thr
+import datetime as _dtm
+import numpy as _tnp
+import geodepy.constants as _tgc
+import geodepy.transform as _tgt
+import geodepy.convert as _tgv
+import geodepy.geodesy as _tgg
+import geodepy.statistics as _tgs
+import geodepy.survey as _tsv
+import geodepy.angles as _tga
+_V1 = [[1e-4, 2e-5, -1e-5], [2e-5, 4e-4, 3e-5], [-1e-5, 3e-5, 9e-4]]
+_V2 = [[9e-3, -2e-3, 1e-3], [-2e-3, 5e-3, 2e-3], [1e-3, 2e-3, 7e-3]]
+T_CALLS = {
+    'fwd_53': lambda: (lambda v=_tnp.array(_V1): _tgt.transform_mga94_to_mga2020(53, 386352.3979, 7381850.7689, 603.3466, v)),
+    'back_53': lambda: (lambda v=_tnp.array(_V2): _tgt.transform_mga2020_to_mga94(53, 386353.2343, 7381852.2986, 603.2489, v)),
+    'fwd_55_col': lambda: (lambda v=_tnp.array([[1e-4], [2e-4], [3e-4]]): _tgt.transform_mga94_to_mga2020(55, 300000.0, 6200000.0, 10.0, v)),
+    'back_50_noh': lambda: (lambda: _tgt.transform_mga2020_to_mga94(50, 9e5, 9.4e6)),
+    'fwd_59': lambda: (lambda v=_tnp.array(_V2) * 2.0: _tgt.transform_mga94_to_mga2020(59, 5e5, 3.4e6, 3000.0, v)),
+}
+_tg, _te = _thr.make(T_CALLS, ['geodepy/transform.py', 'geodepy/constants.py'], 'transform:mga:threads',
+                     quick=['fwd_53', 'back_53', 'fwd_55_col', 'fwd_59'], triple=('fwd_53', 'back_53', 'back_50_noh'),
+                     files_thorough=['geodepy/convert.py'])
+
+
 SUBCHECKS = [
     Sub('constants', gen_const, ev_const, chunk=1, floor=1, parallel=False),
     Sub('grid', gen, ev, chunk=2, floor=500, guard=True, envs=4),
     Sub('covariance', gen_cov, ev_cov, chunk=1, floor=50, guard=True, envs=2),
+    Sub('threads', _tg, _te, chunk=1, floor=3, poison=False),
 ]
 
 
